@@ -3,8 +3,8 @@ EXTENDS RenderIter
 LoopsAll == {-1, 1, 2}
 LoopsCached == {-1, 2, 3}
 LoopsOne == {1}
-DursAll == {50, 70, Dyn}
-DursTwo == {50, Dyn}
+DursAll == {1, 70, Dyn}      \* 1 ms: the smallest static duration (never to be confused with DYNAMIC)
+DursTwo == {1, Dyn}
 SizesTwo == {<<2, 1>>, <<3, 2>>}
 PExact == [kind |-> "exact", l |-> 1, t |-> 0, r |-> 2, b |-> 1]
 PAbs == [kind |-> "aligned", w |-> 6, h |-> 4, ha |-> 1, va |-> 1]
